@@ -168,7 +168,7 @@ PROPS["C04"] = {
     "model_files": ["Model/WireTypes.v", "Model/Codec.v", "Model/Interp.v", "Model/Messages.v", "Model/Ops.v", "Model/Listen.v", "Model/Render.v", "Model/Cases04.v", "Gen/Layouts.v", "Gen/PanicSites.v"],
     "gen_obligations": ["Proofs/PanicProofs.v:panic_sites_covered (every panic-capable expression found in the source now is in the reviewed baseline)", "Proofs/LayoutProps.v:shipped_wf"],
     "technique": "Coq: explicit Panic outcome in the model of every slice/index/lookup, totality theorems for all byte strings and replies; translator inventory of panic-capable expressions checked against a reviewed baseline; recover()-guarded fuzz streams as correspondence",
-    "level_text": "Proved with an explicit Panic outcome for every buffer slice, index, table lookup and unsupported-type branch of the model: decoding any byte string of any length as any of the 65 shipped message types, both dispatchers, the listener's handler, and every API call with in-domain arguments under any configuration and any scripted network never reach Panic; the one table lookup fed by a wire value (door control state) is total. Generated obligation: the inventory of panic-capable expressions (index, slice, unchecked type assertion, panic call) extracted from the current source is contained in the reviewed baseline. Tie: recover()-guarded streams - 40k (thorough 2M) decodes over 4 byte distributions and lengths 0..2048 through Unmarshal / UnmarshalAs / the dispatchers, 6k (300k) API calls with fuzzed replies and edge arguments whose results are rendered with %v and encoding/json, the real Listen path fed through the recording driver - with a sample of each stream evaluated by the model (outcome classes must agree).",
+    "level_text": "Proved with an explicit Panic outcome for every buffer slice, index, table lookup and unsupported-type branch of the model: decoding any byte string of any length as any of the 65 shipped message types, both dispatchers, the listener's handler, and every API call with in-domain arguments under any configuration and any scripted network never reach Panic; the one table lookup fed by a wire value (door control state) is total; the hex dump the driver formats for every request and received datagram is total and prints every byte exactly once (slices and indices modelled with their bounds). Generated obligation: the inventory of panic-capable expressions (index, slice, unchecked type assertion, panic call) extracted from the current source is contained in the reviewed baseline. Tie: recover()-guarded streams - 40k (thorough 2M) decodes over 4 byte distributions and lengths 0..2048 through Unmarshal / UnmarshalAs / the dispatchers, 6k (300k) API calls with fuzzed replies and edge arguments whose results are rendered with %v and encoding/json, the real Listen path fed through the recording driver - with a sample of each stream evaluated by the model (outcome classes must agree).",
     "level_note": "Partial: arguments outside the modelled domain (e.g. years beyond 9999) and panics inside the Go standard library are covered by the fuzz streams only. The baseline of panic sites is a reviewed list, not a proof that each listed site is safe (the modelled ones are). F6 (ControlState table indexed with the wire byte) was found by this check and repaired.",
     "rule": "see level_text; non-trivial = 64-byte buffer (decode) / any API call; distinct = distinct Coq case terms of the sampled cases; the Go-side volumes are reported under coverage.extra.",
     "trusted_base": API_TRUST,
